@@ -305,9 +305,6 @@ func compareNodes(rn, gn []*html.Node, t tol) (string, []string) {
 		tolerated = append(tolerated, fPrePadding)
 	}
 	wr, wg := words(rn, false), words(gn, false)
-	if t.prePadding {
-		// the padding inside <pre> is whitespace; it cannot change the collapsed words
-	}
 	if wr != wg {
 		if t.inlineSpace && words(rn, true) == words(gn, true) {
 			tolerated = append(tolerated, fInlineNewline)
@@ -330,6 +327,7 @@ func clip(s string, n int) string {
 type facts struct {
 	classes map[string]bool
 	regions map[string]bool // ids of the known-finding regions the document touches
+	tagSoup bool            // an HTML block of the source contains a < that no > closes
 	aKinds  []string        // "link" / "autolink" in document order (children of images skipped)
 }
 
@@ -465,6 +463,21 @@ func analyse(src []byte) facts {
 			set("thematic-break")
 		case *ast.HTMLBlock:
 			set(fmt.Sprintf("html-block-type%d", int(v.HTMLBlockType)))
+			var rawText []byte
+			for i := 0; i < v.Lines().Len(); i++ {
+				s := v.Lines().At(i)
+				rawText = append(rawText, s.Value(src)...)
+			}
+			if v.HasClosure() {
+				rawText = append(rawText, v.ClosureLine.Value(src)...)
+			}
+			if bytes.Count(rawText, []byte("<")) != bytes.Count(rawText, []byte(">")) {
+				// Markdown text swallowed by an HTML block (a line that consists of one tag starts
+				// one) and containing a literal <: both renderers copy the bytes, what the HTML parser
+				// makes of the tag soup depends on the white space after it, which is not compared
+				f.tagSoup = true
+				set("html-block-tag-soup")
+			}
 			if v.HasClosure() {
 				set("html-block-closure-line")
 				region(fHTMLClosure)
